@@ -29,8 +29,47 @@ let impl_opt (f : string) : string option =
 
 let first_fail (l : string list) = match List.filter (fun x -> x <> "") l with [] -> "ok" | x :: _ -> "fail:" ^ x
 
-(* live path: filled in below *)
-let live pip iptab ins outs = Mlutil.print_model outs "ok"
+(* live path: RCPT + DATA on a real SMTP session, then lookups by the address through the
+   manager, the REST API and POP3. *)
+let live pip iptab ins outs =
+  match ins with
+  | [mf; a] ->
+      let m = (match mf with "0" -> Local | "1" -> Full | _ -> Domain) in
+      let a = str_of_field a in
+      let impl k = (try List.nth outs k with _ -> "?") in
+      let fields =
+        match new_recipient pip m a with
+        | None -> ["501"]
+        | Some r ->
+            let name = r.r_mailbox in
+            let cnt pre = function Some n when n = name -> pre ^ "1" | Some _ -> pre ^ "0" | None -> pre ^ "NONE" in
+            let by_addr = read_name pip m ViaMailboxForAddress a and by_name = read_name pip m ViaMailboxForAddress name in
+            let rest_f = if impl 6 = "-" then "-" else
+              (match by_addr with
+               | Some n when n = name -> "200:1:" ^ field_of_str name
+               | Some _ -> "200:0:-"
+               | None -> "500") in
+            let pop_a = if impl 7 = "-" then "-" else cnt "P" (read_name pip m pop3_user_flow a) in
+            let pop_n = if impl 8 = "-" then "-" else cnt "P" (read_name pip m pop3_user_flow name) in
+            ["250"; "250"; "S" ^ field_of_str name; cnt "M" by_addr; cnt "M" by_name; rest_f; pop_a; pop_n] in
+      let verdict =
+        match outs with
+        | [_; rc] when rc <> "250" -> "ok"
+        | [_; "250"; "250"; stored; by_addr; by_name; rest_o; pop_a; pop_n] ->
+            (match impl_opt stored with
+             | None -> "fail:live-message-not-in-exactly-one-mailbox"
+             | Some "" -> "fail:live-name-empty"
+             | Some n ->
+                 if by_addr <> "M1" then "fail:live-not-fetchable-by-address:manager"
+                 else if by_name <> "M1" then "fail:live-not-fetchable-by-name:manager"
+                 else if rest_o <> "-" && rest_o <> "200:1:" ^ Mlutil.hex n then "fail:live-not-fetchable-by-address:rest"
+                 else if pop_n <> "-" && pop_n <> "P1" then "fail:live-not-fetchable-by-name:pop3"
+                 else if pop_a <> "-" && pop_a <> "P1" then "fail:pop3-user-not-canonical:live"
+                 else "ok")
+        | "PANIC" :: _ -> "fail:panic"
+        | _ -> "ok" (* anything else (refused DATA, harness trouble) is left to the comparison *) in
+      Mlutil.print_model ((if !ip_miss then "IPMISS" else iptab) :: fields) verdict
+  | _ -> Mlutil.print_model ["BAD-LIVE-LINE"] "ok"
 
 let () =
   Mlutil.iter_lines (fun line ->
